@@ -72,3 +72,9 @@ func StoreWrites() int                                           { sym(); return
 func EventCount() int                                            { sym(); return 0 }
 func TblGet(tbl string, k1 []byte, k2 string) *big.Int           { sym(); return nil }
 func TblSet(tbl string, k1 []byte, k2 string, v *big.Int)        { sym() }
+
+// determinism (C06)
+func Snapshot() interface{}                     { sym(); return nil }
+func Restore(snap interface{})                  { sym() }
+func EffectsSince(snap interface{}) interface{} { sym(); return nil }
+func SameEffects(a, b interface{}) bool         { sym(); return false }
